@@ -182,6 +182,15 @@ def wl_forge(ctx, config, scale=1.0):
         r_, s_, m, Q = t
         verify_case(ctx, config, r_, s_, m, Q, "forge_r:" + nm + (":x>=n" if R[0] >= n else (":x<p-n" if R[0] < p - n else "")))
 
+def wl_infinity(ctx, config, scale=1.0):
+    """u1*G + u2*Q is the point at infinity (Q = -(m/r) G): must be rejected, for every r, s"""
+    rng = ctx.rng
+    for it in range(int(ctx.n(150, 3000) * scale)):
+        r_ = pools.scalar(rng, 0.3) % n or 1; s_ = rng.choice((1, HALF_N, rng.randrange(1, HALF_N + 1))); m = rng.randrange(1, n)
+        Q = mulG((-m * pow(r_, -1, n)) % n)
+        verify_case(ctx, config, r_, s_, b32(m), Q, "crafted:sum_infinity")
+        if m + n < 2**256: verify_case(ctx, config, r_, s_, b32(m + n), Q, "crafted:sum_infinity/m_plus_n")
+
 def wl_verify(ctx, config, scale=1.0):
     rng = ctx.rng
     specials = [1, 2, 3, (n - 1) // 2, (n + 1) // 2, (n - 1) // 2 - 1, (n + 1) // 2 + 1, n - 1, n - 2, 2**128, 2**64, 2**255]
@@ -271,4 +280,5 @@ def run(ctx):
         wl_sign(ctx, config, scale)
         wl_verify(ctx, config, scale)
         wl_forge(ctx, config, scale)
+        wl_infinity(ctx, config, scale)
         wl_recover(ctx, config, scale)
